@@ -2,6 +2,7 @@ import PdtVerif.Lemmas.CommandLine
 import PdtVerif.Lemmas.CommandLineTimed
 import PdtVerif.Lemmas.CommandLineCosts
 import PdtVerif.Lemmas.CommandLineAudit
+import PdtVerif.Lemmas.CommandLineEos
 import PdtVerif.Properties.C11
 /-!
 # C17 — command-line conversions invert each other and ignore worker count
@@ -472,6 +473,65 @@ theorem C17_er_intern_injective (ls : List (List τ)) (a b : τ)
   exact idxOf_inj_of_mem (h3 l hl a hal) h
 
 end ErrorRates
+
+/-! ## The `eos` / `padding` sentinels of the error-rate command -/
+section Sentinels
+variable {τ υ : Type} [DecidableEq τ]
+
+/-- **C17_er_intern_sentinels** — the renumbering makes the two local sentinels of the command
+(`eos = -1`, `padding = -2`) unreachable, for tokens of ANY type — stored ids of either sign, `-1`,
+`-2`, `-100`, the ends of `int64`, or strings after `--id2token`: every id the `defaultdict` hands
+out (from any table reached so far, `st.Nodup`) is a position of the table afterwards, so as a tensor
+entry it is neither `eos` nor `padding`. (Injectivity of the renumbering: `C17_er_intern_injective`,
+also for every token type.) -/
+theorem C17_er_intern_sentinels (st : List τ) (hn : st.Nodup) (ls : List (List τ)) :
+    ∀ is ∈ (internMany st ls).1, ∀ i ∈ is,
+      i < (internMany st ls).2.length ∧ Int.ofNat i ≠ erEos ∧ Int.ofNat i ≠ erPad :=
+  fun is his i hi => ⟨internMany_lt st ls hn is his i hi, ofNat_ne_sentinels i⟩
+
+/-- **C17_er_column_read** — a column `seq + [eos]` padded with `padding` is read back by
+`error_rate(eos=-1, include_eos=False)` as `seq` IF AND ONLY IF `seq` does not contain `-1`: the
+sequence is cut at its first `-1` otherwise. (Whatever the height `T`; `-2` inside `seq` is harmless.) -/
+theorem C17_er_column_read (T : Nat) (ids : List Int) :
+    erRead (erColumn T ids) = ids ↔ ∀ i ∈ ids, i ≠ erEos :=
+  erRead_erColumn_iff T ids
+
+/-- **C17_er_tensor_read** — one pass of the loop, tokens of any type and sign: what `error_rate`
+reads from the columns of `ref` and of `hyp` are exactly the renumbered references and hypotheses of
+the batch (the lists `accBatch` applies `er` to), in order, and the table carried to the next batch is
+`accBatch`'s. So no stored id can end a sequence early or pass for padding. -/
+theorem C17_er_tensor_read (table : List τ) (batch : List (Pair υ τ)) :
+    (batchTensors table batch).1.1.map erRead =
+        (internMany table (batch.map (·.2.1))).1.map (·.map Int.ofNat) ∧
+      (batchTensors table batch).1.2.map erRead =
+        (internMany (internMany table (batch.map (·.2.1))).2 (batch.map (·.2.2))).1.map
+          (·.map Int.ofNat) ∧
+      (batchTensors table batch).2 =
+        (internMany (internMany table (batch.map (·.2.1))).2 (batch.map (·.2.2))).2 :=
+  batchTensors_read table batch
+
+end Sentinels
+
+/-- **C17_er_raw_ids_counterexample** — the renumbering is necessary: with the stored ids themselves in
+the tensor, reference `[3, -1, 2]` and hypothesis `[3, -1, 1]` (one substitution) are both read as
+`[3]` (0 edits), and `[-1]` against the empty reference is read as `[]`; renumbered, the same
+reference is `[0, 1, 2]` and reads back whole. -/
+theorem C17_er_raw_ids_counterexample :
+    erRead (erColumn 4 [3, -1, 2]) = [3] ∧ erRead (erColumn 4 [3, -1, 1]) = [3] ∧
+      erRead (erColumn 2 [-1]) = [] ∧
+      erRead (erColumn 4 ((internSeq ([] : List Int) [3, -1, 2]).1.map Int.ofNat)) = [0, 1, 2] := by
+  decide
+
+/-- Negative ids, all hypotheses of `C17_er_intern_sentinels` / `C17_er_intern_injective` at once: a table
+that already holds `-1` and `7`, then the sequences `[-2, -1, -100]` and `[7, -2]`. -/
+example : (internMany ([-1, 7] : List Int) [[-2, -1, -100], [7, -2]]).1 = [[2, 0, 3], [1, 2]] := by decide
+example : ∀ is ∈ (internMany ([-1, 7] : List Int) [[-2, -1, -100], [7, -2]]).1, ∀ i ∈ is,
+    i < (internMany ([-1, 7] : List Int) [[-2, -1, -100], [7, -2]]).2.length ∧
+      Int.ofNat i ≠ erEos ∧ Int.ofNat i ≠ erPad :=
+  C17_er_intern_sentinels _ (by decide) _
+example : (batchTensors ([] : List Int) [((0 : Nat), [3, -1, 2], [3, -1, 1]), (1, [-2], [])]).1 =
+    ([[0, 1, 2, -1], [3, -1, -2, -2]], [[0, 1, 4, -1], [-1, -2, -2, -2]]) := by decide
+
 
 /-- A count that only looks at which tokens are equal satisfies `Relabels`; the simplest
 non-trivial instance (0 if the sequences are equal, else 1). An instance, not a clause of the
